@@ -498,6 +498,7 @@ func checkC14(c *Ctx) {
 		return
 	}
 	c14Package(c)
+	c14NilElems(c)
 }
 
 func init() {
